@@ -289,6 +289,7 @@ func genTables() string {
 	pv := "pkg/versions/1_0/operationparser/patchvalidator"
 	defConst(&b, "gen_max_id_length", pv, "maxIDLength", false)
 	defConst(&b, "gen_max_service_type_length", pv, "maxServiceTypeLength", false)
+	defConst(&b, "gen_max_nesting_depth", "pkg/internal/jsoncanonicalizer", "maxNestingDepth", false)
 	fmt.Fprintf(&b, "Definition gen_id_regexp : string := %s.\n", coqLit(regexpSource(pv, "asciiRegex")))
 	defKeys(&b, "gen_allowed_purposes", pv, "allowedPurposes")
 	defKeys(&b, "gen_key_types_general", pv, "allowedKeyTypesGeneral")
